@@ -135,9 +135,16 @@ def instance_of(draw, schema, depth=0):
         items = s.get("items", True)
         lo = _int(s.get("minItems", 0))
         hi = _int(s.get("maxItems", max(lo, 3)))
-        if isinstance(items, list) and s.get("additionalItems", True) is False and draw(st.integers(0, 3)) > 0:
-            hi = min(hi, len(items))  # aim at validity; perturb() appends the item that breaks it
         n = draw(st.integers(min(lo, 4), max(min(hi, 4), min(lo, 4))))
+        if isinstance(items, list) and draw(st.integers(0, 3)) > 0:
+            # lengths around the tuple boundary: additionalItems applies from len(items) on
+            n = draw(st.sampled_from([max(len(items) - 1, 0), len(items), len(items), len(items) + 1,
+                                      len(items) + 2]))
+        if s.get("uniqueItems") and items in (True, {}) and draw(st.booleans()):
+            # uniqueness over nested containers and bool/number lookalikes at depth
+            pool = [[1], [True], [1.0], [[1]], [[True]], [[1], [2]], [[[1]]], [[[2]]], {"a": 1}, {"a": True},
+                    {"a": [1]}, {"a": [True]}, [], {}, [[]], [{}], 0, False, [0], [False], [[0, 1]], [[False, True]]]
+            return draw(st.lists(st.sampled_from(pool), min_size=min(lo, 4), max_size=4)).copy()
         out = []
         for i in range(n):
             if isinstance(items, list):
@@ -165,6 +172,11 @@ def instance_of(draw, schema, depth=0):
         for name in required:
             if name not in out:
                 out[name] = draw(jv.scalars)
+        if s.get("dependencies") and draw(st.booleans()):
+            # trigger the dependencies (all of them together, or one)
+            keys = sorted(s["dependencies"])
+            for key in (keys if draw(st.booleans()) else [draw(st.sampled_from(keys))]):
+                out.setdefault(key, draw(jv.scalars))
         for key, dep in (s.get("dependencies") or {}).items():
             if key in out and isinstance(dep, list):
                 for d in dep:
